@@ -118,6 +118,7 @@ func ExecPlan(t *testing.T, p *Plan, prop Property, keepLog bool) (run *Run) {
 	defer func() { crand.Reader = oldReader }()
 	baseG := runtime.NumGoroutine()
 	synctest.Test(t, func(t *testing.T) {
+		baseG = runtime.NumGoroutine() - 1 // everything alive now except this goroutine is harness plumbing
 		s := NewSim(p.Seed, keepLog)
 		run.Sim = s
 		if p.Net.BaseLatency > 0 {
@@ -277,6 +278,11 @@ func ExecPlan(t *testing.T, p *Plan, prop Property, keepLog bool) (run *Run) {
 			s.Run(s.Now()+time.Duration(1+i/10)*time.Second, never)
 		}
 		run.Goroutines[1] = runtime.NumGoroutine() - baseG - 1
+		if run.Goroutines[1] > 0 && os.Getenv("VERIF_DEBUG_STACKS") != "" {
+			buf := make([]byte, 1<<20)
+			n := runtime.Stack(buf, true)
+			os.Stderr.Write(buf[:n])
+		}
 	})
 	return run
 }
